@@ -23,7 +23,7 @@ def ret_kind(l):
 
 
 def proj_c12(l):
-    return l if l.startswith(("enc", "dec")) else None
+    return l if l.startswith(("enc", "dec")) else None  # `decr` prints `dec …` lines too
 
 
 def proj_c01(l):
@@ -131,6 +131,14 @@ def oracle_c12(script, ig, mg):
     for i, a in enumerate(ig):
         if "panic" in a.line or "size-mismatch" in a.line:
             fails.append(("codec-panic-or-size", {"group": i, "impl": a.line}))
+            break
+        if i > 0 and i < len(script) and script[i].startswith("decr ") and script[i - 1].startswith("dec ") \
+                and script[i].split()[2] == script[i - 1].split()[1] and a.line != ig[i - 1].line:
+            fails.append(("decoding-depends-on-how-the-reader-chops-the-input",
+                          {"group": i, "whole": ig[i - 1].line, "chopped": a.line, "cmd": script[i][:80]}))
+            break
+        if a.line.startswith("dec ok") and a.line.endswith("reenc=differs"):
+            fails.append(("decoded-record-does-not-reencode-to-the-input", {"group": i, "impl": a.line}))
             break
     return fails
 
@@ -1067,6 +1075,9 @@ def oracle_c14(script, ig, mg):
     fails = []
     dropped = False
     for i, g in enumerate(ig):
+        if any(e == "ev lock-free-while-worker-active" for e in g.evs):
+            fails.append(("directory-lock-released-while-worker-still-active", {"group": i, "events": g.evs}))
+            return fails
         if dropped:
             for e in g.evs:
                 if " z " in e or e.startswith("ev exit z"):
@@ -1263,7 +1274,8 @@ def scripts_c14(tier, rng):
         lines += ["flush 9000"]
         k = r.below(4)
         lines += ["wack 9000"] if k else ["widle"]
-        lines += ["st", f"read 0 {U64MAX}", "dir", "drop", "dir", g.cfg_line(), "open", "st", f"read 0 {U64MAX}"]
+        lines += ["st", f"read 0 {U64MAX}", "dir", "droppanic" if r.chance(1, 4) else "drop", "dir", g.cfg_line(),
+                  "open", "st", f"read 0 {U64MAX}"]
         # the new instance keeps working
         if g.m.entries:
             e = g.m.entries[len(g.m.entries) // 2]
@@ -1347,6 +1359,9 @@ def oracle_c13(script, ig, mg):
     prim = primary_cmds(script)
     owner = None  # "store" | "dump" | None, tracked from the implementation's own answers
     for i, g in enumerate(ig):
+        if any(e == "ev lock-free-while-worker-active" for e in g.evs):
+            fails.append(("directory-lock-released-while-owner-still-active", {"group": i, "events": g.evs}))
+            return fails
         c = prim[i] if i < len(prim) else ""
         if c == "open":
             if owner is not None:
@@ -1370,7 +1385,7 @@ def oracle_c13(script, ig, mg):
             else:
                 fails.append(("refused-although-nobody-owns-the-directory", {"group": i, "line": g.line}))
                 return fails
-        elif c == "drop" and g.line.startswith("dropped") and owner == "store":
+        elif c in ("drop", "droppanic") and g.line.startswith("dropped") and owner == "store":
             owner = None
         elif c == "dumpdrop" and owner == "dump":
             owner = None
